@@ -305,7 +305,7 @@ func runC04(c *Ctx) {
 	constBinders := map[string]bool{}
 	typePosition := func(s *tmplSite) bool {
 		// field names inside a type literal (FuncType/StructType/InterfaceType built by the type renderer) bind nothing in the function
-		return s.fn != nil && (s.fn.Name.Name == "createASTTypeExpr" || s.fn.Name.Name == "instantiateTypeExpr")
+		return s.fn != nil && isTypeRenderer(p, s.fn)
 	}
 	for _, u := range uses {
 		s := u.site
@@ -355,7 +355,7 @@ func runC04(c *Ctx) {
 					nested = "handler closure (spliced into if/case bodies only)"
 				}
 				if nested == "" {
-					c.fail("C04.1", where+":constant-binder:"+name, L.pos(s.lit.Pos()),
+					c.fail("C04.1", "function-level-constant-binder:"+name, L.pos(s.lit.Pos()),
 						fmt.Sprintf("the generator declares the hard-coded name %q at function level without asking the allocator: it collides with a provided variable, parameter or import of that name", name), slotKey+" with := in "+where)
 					continue
 				}
@@ -397,7 +397,7 @@ func runC04(c *Ctx) {
 
 	// C04.10 user identifiers reach the allocator (shared with C12): otherwise a generated local can shadow a user name
 	{
-		sub := &Ctx{Prop: c.Prop, Tier: c.Tier, L: c.L, FuncsSeen: c.FuncsSeen, Extra: c.Extra}
+		sub := &Ctx{Prop: c.Prop, Tier: c.Tier, L: c.L, FuncsSeen: c.FuncsSeen, Extra: c.Extra, RoleNames: c.RoleNames}
 		alloc := map[*ssa.Function]bool{}
 		for _, fn := range pkgFuncs(L, genPkg) {
 			if strings.HasSuffix(fn.String(), "VarPool).GetName") || strings.HasSuffix(fn.String(), "VarPool).Get") || strings.HasSuffix(fn.String(), "VarPool).GetChannel") {
@@ -428,7 +428,7 @@ func runC04(c *Ctx) {
 		nR++
 		if len(cl.Elts) >= 2 {
 			if n, ok := identConst(p, s.fn, cl.Elts[0]); ok && n == "nil" {
-				c.fail("C04.5", s.fnName()+":return-nil-for-value", L.pos(s.lit.Pos()),
+				c.fail("C04.5", "template:return-nil-for-value", L.pos(s.lit.Pos()),
 					"a two-value return starts with the untyped nil although the injector's result type is arbitrary (string, struct, ...): `return nil, err` does not compile for non-nilable types")
 				continue
 			}
@@ -482,7 +482,7 @@ func c04Nested(c *Ctx, p *packages.Package, sites []*tmplSite, s *tmplSite, name
 		open = ""
 	}
 	if open != "" {
-		c.fail("C04.2", where+":nested-binder:"+name, L.pos(s.lit.Pos()),
+		c.fail("C04.2", "nested-constant-binder-encloses-user-syntax:"+name, L.pos(s.lit.Pos()),
 			fmt.Sprintf("the hard-coded %s variable %q encloses user-controlled syntax: a user package or type spelled %q inside it is captured by the generated variable", nested, name, name), open)
 		return
 	}
@@ -514,7 +514,34 @@ func goTypesPkg(L *Loaded) *types.Package {
 func analyseWalker(L *Loaded, p *packages.Package, name string) *walkerInfo {
 	fd, _ := L.funcDecl(genPkg, "", name)
 	if fd == nil {
-		return nil
+		// by role: a function with a go/types.Type first parameter whose body is a type switch on it
+		want := "(go/ast.Expr, error)"
+		if name == "collectImportsFromType" {
+			want = ""
+		}
+		for _, fn := range pkgFuncs(L, genPkg) {
+			if fn.Parent() != nil || fn.Signature.Recv() != nil || len(fn.Params) == 0 {
+				continue
+			}
+			sg := fn.Signature.String()
+			hasTypeParam := false
+			for _, prm := range fn.Params {
+				if prm.Type().String() == "go/types.Type" {
+					hasTypeParam = true
+				}
+			}
+			if !hasTypeParam {
+				continue
+			}
+			if (want != "" && strings.HasSuffix(sg, want)) || (want == "" && fn.Signature.Results().Len() == 0) {
+				if d := funcDeclOfSSA(L, fn); d != nil {
+					fd = d
+				}
+			}
+		}
+		if fd == nil {
+			return nil
+		}
 	}
 	gt := goTypesPkg(L)
 	w := &walkerInfo{fn: fd, perKind: map[string]map[string]bool{}, handled: map[string]bool{}}
@@ -739,4 +766,21 @@ func newIdentCallOf(p *packages.Package, fn *ast.FuncDecl, e ast.Expr) *ast.Call
 		}
 	}
 	return nil
+}
+
+// isTypeRenderer: the function turns go/types values into a type expression (first result go/ast.Expr, some parameter
+// from go/types). Field names it emits sit in type position.
+func isTypeRenderer(p *packages.Package, fd *ast.FuncDecl) bool {
+	if fd.Type.Results == nil || len(fd.Type.Results.List) == 0 || fd.Type.Params == nil {
+		return false
+	}
+	if t := p.TypesInfo.TypeOf(fd.Type.Results.List[0].Type); t == nil || t.String() != "go/ast.Expr" {
+		return false
+	}
+	for _, fl := range fd.Type.Params.List {
+		if t := p.TypesInfo.TypeOf(fl.Type); t != nil && strings.Contains(t.String(), "go/types.") {
+			return true
+		}
+	}
+	return false
 }
